@@ -299,12 +299,17 @@ pub fn finish(ctx: &Ctx, acc: &Acc, fin: Finish) -> i32 {
     let _ = std::fs::create_dir_all(format!("{VERIF_DIR}/replays"));
     let mut printed: Vec<String> = vec![];
     let mut seen_keys: Vec<&str> = vec![];
+    let mut per_cat: BTreeMap<String, usize> = BTreeMap::new();
     for v in &new_violations {
         if seen_keys.contains(&v.key.as_str()) {
             continue;
         }
         seen_keys.push(&v.key);
-        if printed.len() >= 25 {
+        // at most 4 replay files per category (= first two components of the key), 48 in total
+        let cat: String = v.key.split('/').take(2).collect::<Vec<_>>().join("/");
+        let c = per_cat.entry(cat).or_insert(0);
+        *c += 1;
+        if *c > 4 || printed.len() >= 48 {
             continue;
         }
         let path = format!("{VERIF_DIR}/replays/{}-{:016x}.json", ctx.prop, fnv(&v.key));
@@ -314,6 +319,9 @@ pub fn finish(ctx: &Ctx, acc: &Acc, fin: Finish) -> i32 {
         let _ = std::fs::write(&path, serde_json::to_string_pretty(&body).unwrap());
         printed.push(format!("VIOLATION property={} replay={}", ctx.prop, path));
         eprintln!("[{}] VIOLATION clause={} key={} :: {}", ctx.prop, v.clause, v.key, v.what);
+    }
+    if !per_cat.is_empty() {
+        eprintln!("[{}] distinct violation keys per category: {:?}", ctx.prop, per_cat);
     }
     for (_, k) in &known_hits {
         out_line(&format!("KNOWN-FINDING: property={} {}", ctx.prop, k.what));
